@@ -1,3 +1,4 @@
 /- Aggregate: C05 pool-level theorems (C05.lean) and document-level failure clauses (C05Doc.lean). -/
 import AJ.Props.C05
 import AJ.Props.C05Doc
+import AJ.Props.C05Copy
